@@ -9,7 +9,8 @@ from props.c01 import poly_obs
 RULE = ("validated plain models (depth 0-4, every connective, explicit signs, sharing, boolean and small integer leaves); completeness: every "
         "satisfying in-bounds leaf assignment (exhaustive <= cap, else random) extends to a point of the asserted polyhedron; soundness (solver-safe "
         "models only): ALL integer points of the column box (auxiliary columns free) are enumerated when there are <= cap of them and every point "
-        "satisfying all rows must make the model true on its leaf part; non-trivial = polyhedron has >= 2 auxiliary columns; distinct by canonical text")
+        "satisfying all rows must make the model true on its leaf part; the negation of every solver-safe model must be solver safe again and is "
+        "enumerated the same way; non-trivial = polyhedron has >= 2 auxiliary columns; distinct by canonical text")
 
 def sound_model(res, ast, m, cap):
     """enumerate the column box of the asserted polyhedron"""
@@ -73,7 +74,25 @@ def run(res, tier, seed):
                 res.violation("oracle", f"{bad['problem']} on {m!r}", bad)
             else:
                 res.count("soundness_enumerated")
-        # Not(m) must be solver safe again when m is (boolean leaves) and then soundness applies to it too
+        # negation pushes inwards to re-establish solver-safe form: the negation of a solver-safe model must be
+        # solver safe again, and then soundness applies to its polyhedron too
+        if safe:
+            try:
+                neg = build(ast).negate()
+            except Exception as e:
+                neg = None; res.count("negate_error:" + type(e).__name__)
+            if neg is not None and not is_var(neg) and not neg.errors() and plain(neg):
+                res.count("negation_checked")
+                if not solver_safe(neg):
+                    res.violation("oracle", f"negating the solver-safe model {m!r} gives a model that is not in solver-safe form: {canon(neg)}",
+                                  {"op": "negate-safe", "model": ast_json(ast), "problem": "negation of a solver-safe model is not solver safe"})
+                else:
+                    nast = {"k": "Not", "ch": [ast], "id": None}
+                    bad = sound_model(res, nast, neg, cap)
+                    if bad == "skipped":
+                        res.count("negation_box_too_large")
+                    elif bad:
+                        res.violation("oracle", f"{bad['problem']} on the negation {neg!r} of {m!r}", bad)
         cases.append((lambda it, m=m, cols=cols, rows=rows:
                       f"(true, {dump(m, it)}, {lst(f'({it.s(c)}, ({z(lo)}, {z(hi)}))' for c, (lo, hi) in cols)}, {lst(lst(z(v) for v in r) for r in rows)})", (ast,)))
         res.sample({"model": repr(m), "columns": [c for c, _ in cols][:8], "solver_safe": safe})
@@ -95,6 +114,10 @@ def replay(payload):
     m = build(r["model"])
     cols, rows = poly_obs(m, True)
     class R: evaluations = 0
+    if r.get("op") == "negate-safe":
+        neg = m.negate()
+        print("model", m, "negation", canon(neg), "solver safe:", solver_safe(neg))
+        return 0 if solver_safe(neg) else 1
     if r.get("op") == "sound":
         x = [r["point"][c] for c, _ in cols]
         sat = all(row[0] <= sum(a * b_ for a, b_ in zip(row[1:], x)) for row in rows)
